@@ -46,10 +46,15 @@ PICK_FUNCS = {"next", "min", "max"}
 ANY = "*"
 
 
+CONST_INSIDE = set()  # module-level displays all of whose elements are immutable constants: nothing inside to alias
+
+
 def inside_of(o):
     """the summary object standing for everything inside root `o` (None for allocation sites)"""
     c = o[0]
     if c == "A":
+        return None
+    if c == "G" and o in CONST_INSIDE:
         return None
     if c == "F":
         return o if o[1] == "I" else "FI:" + o[2:]
@@ -240,6 +245,19 @@ class Effects:
             exprs = [r[2]] if r[0] == "value" else r[2]
             if any(_mutable_display(e) or _is_ctor_call(e) for e in exprs):
                 out = {f"G:{r[1].short}.{self._defname(r[1], exprs[0], name)}"}
+
+                def _const(e):
+                    if isinstance(e, ast.Constant):
+                        return True
+                    if isinstance(e, ast.Tuple):
+                        return all(_const(x) for x in e.elts)
+                    if isinstance(e, ast.UnaryOp) and isinstance(e.op, ast.USub):
+                        return _const(e.operand)
+                    return False
+
+                if all(isinstance(e, (ast.List, ast.Set)) and all(_const(x) for x in e.elts) or (isinstance(e, ast.Dict) and all(k is not None and _const(k) for k in e.keys) and all(_const(v) for v in e.values)) for e in exprs):
+                    # strings / numbers taken out of the display are values, not shared mutable objects
+                    CONST_INSIDE.update(out)
         self._glob[key] = out
         return out
 
